@@ -241,6 +241,34 @@ def build_unit_text(unit, xdir, specs, report):
             why = report['failed'].get(fn, 'not instantiated / renamed')
             raise Infra('function %s is not available in the lowered code: %s' % (fn, why))
     subst = unit.get('subst', {})
+    # keep only the functions reachable from the target (and from the replaced callees' prototypes): smaller units, and a
+    # change elsewhere in the headers leaves the unit text - hence its cached result - untouched
+    reach, todo = set(), [target]
+    while todo:
+        fn = todo.pop()
+        if fn in reach or fn not in report['lowered']:
+            continue
+        reach.add(fn)
+        if fn in unit.get('replace', []) and fn != target:
+            continue
+        todo.extend(report['lowered'][fn]['callees'])
+    kept, skipping = [], False
+    for line in lowered.split('\n'):
+        m = re.match(r'^/\*@PROTO (\w+)@\*/ (.*)$', line)
+        if m:
+            if m.group(1) in reach:
+                kept.append(m.group(2))
+            continue
+        m = re.match(r'^/\*@FN (\w+)@\*/$', line)
+        if m:
+            skipping = m.group(1) not in reach
+            continue
+        if line == '/*@ENDFN@*/':
+            skipping = False
+            continue
+        if not skipping:
+            kept.append(line)
+    lowered = '\n'.join(kept)
     text, cmap = splice(lowered, specs, fns, subst)
     proto = report['lowered'][target]['proto']
     ret, name, ps = proto_params(proto)
